@@ -49,7 +49,7 @@ pub fn gen(seed: u64, tier: Tier) -> ScenarioSpec {
     // make sure items exist when the version has them
     if L::gte((rec.version[0], rec.version[1]), (3, 0)) && !rec.frames.is_empty() {
         let k = rng.usize_below(rec.frames.len());
-        rec.frames[k].items = rec.frames[k].items.max(1 + rng.below(3) as u8);
+        rec.frames[k].items = rec.frames[k].items.max(1 + rng.below(3) as u16);
     }
     let len = gen::approx_len(&rec);
     let live = rng.chance(3, 10);
